@@ -1,6 +1,6 @@
 """C12 failure atomicity: R-ERR1, R-ERR2, R-ERR3, R-ERR4 over everything reachable from naken_asm's main()."""
 from nk import report
-from rules import err
+from rules import err, caselen
 from . import common
 
 EXPLANATION = (
@@ -11,8 +11,9 @@ EXPLANATION = (
     'with every row of the never-written opcode table). R-ERR1: no result of an error-returning function is dropped. '
     'R-ERR3: abstract interpretation of main() (status variable x pending-failure x unlinked x pass count): file_write '
     'only after two successful passes, every failing path unlinks the output and returns non-zero. R-ERR4: the '
-    'error_count / error side channels are tested by assemble() and never reset. Not decided: errors the code never '
-    'detects (C06/C16 rules).')
+    'error_count / error side channels are tested by assemble() and never reset. CASE-FALLTHROUGH: no arm of an operand-type switch runs into the next one, so a line whose operands do not fit its '
+    'instruction reaches the `unknown operands` diagnostic instead of being matched against the pattern of another type. '
+    'Not decided: errors the code never detects (C06/C16 rules).')
 
 
 def run(tier, t0):
@@ -29,6 +30,7 @@ def run(tier, t0):
         err.err3(prog),
         err.err4(prog),
         err.eof_err(prog),
+        caselen.fallthrough(prog),
     ]
     return report.finish('C12', tier, results, EXPLANATION,
                          ['clang CFG edges are a superset of the feasible control flow',
